@@ -21,7 +21,7 @@ package node
 //@ # An address is marked for deletion only while it is unbound and not the interface's primary address
 //@ guard store IP.Status in releaseUnUsedIP: value != "Deleting" || (target.PodID == "" && !target.Primary)
 
-//@ for C02 C03
+//@ for C02 C03 C08
 
 //@ # in-use counts: zero means no entry carries an owner
 //@ func IPUsage
